@@ -608,8 +608,44 @@ class Executor:
                     self.exec_stmt(comp, frame)
                     i += 2
                     continue
+            if i + 1 < len(stmts):
+                clamp = self._clamp_returns_as_extremum(st, stmts[i + 1])
+                if clamp is not None:
+                    # `if x < c: return c` followed by `return x` is `return max(x, c)` (one canonical form; numerically
+                    # the same value - which of two EQUAL operands is handed back is not observable in a normal form)
+                    self.exec_stmt(clamp, frame)
+                    i += 2
+                    continue
             self.exec_stmt(st, frame)
             i += 1
+
+    @staticmethod
+    def _clamp_returns_as_extremum(guard, ret):
+        if not (isinstance(guard, ast.If) and not guard.orelse and len(guard.body) == 1 and isinstance(guard.body[0], ast.Return) and guard.body[0].value is not None):
+            return None
+        if not (isinstance(ret, ast.Return) and ret.value is not None):
+            return None
+        t = guard.test
+        if not (isinstance(t, ast.Compare) and len(t.ops) == 1 and isinstance(t.ops[0], (ast.Lt, ast.LtE, ast.Gt, ast.GtE))):
+            return None
+        a, b = ast.unparse(t.left), ast.unparse(t.comparators[0])
+        early, late = ast.unparse(guard.body[0].value), ast.unparse(ret.value)
+        less = isinstance(t.ops[0], (ast.Lt, ast.LtE))
+        fn = None
+        # if a < b: return b ; return a   -> max(a, b)        if a > b: return b ; return a   -> min(a, b)
+        if early == b and late == a:
+            fn = "max" if less else "min"
+        # if a < b: return a ; return b   -> min(a, b)        if a > b: return a ; return b   -> max(a, b)
+        elif early == a and late == b:
+            fn = "min" if less else "max"
+        if fn is None:
+            return None
+        if not (isinstance(t.left, (ast.Name, ast.Constant, ast.Attribute)) and isinstance(t.comparators[0], (ast.Name, ast.Constant, ast.Attribute))):
+            return None  # operands with calls could have effects that the rewriting would duplicate
+        new = ast.Return(value=ast.Call(func=ast.Name(id=fn, ctx=ast.Load()), args=[t.left, t.comparators[0]], keywords=[]))
+        ast.copy_location(new, ret)
+        ast.fix_missing_locations(new)
+        return new
 
     @staticmethod
     def _append_loop_as_comprehension(init, loop):
@@ -1693,6 +1729,12 @@ class Executor:
                 c = c.neg()
             return Num(None, (), "bool", cond=c)
         sym_op = {ast.Lt: "<", ast.LtE: "<=", ast.Gt: ">", ast.GtE: ">=", ast.Eq: "==", ast.NotEq: "!="}[type(op)]
+        if sym_op in ("==", "!="):
+            # `x.dtype.kind == "i"` is the membership test `x.dtype.kind in "i"` (one canonical form for both)
+            for u, w in ((a, b), (b, a)):
+                if isinstance(u, OpaqueV) and u.meta.get("attr") == "kind" and isinstance(u.meta.get("recv"), OpaqueV) and u.meta["recv"].meta.get("kind") == "dtype" and isinstance(w, StrV) and w.s is not None and len(w.s) == 1:
+                    c = self.contains(w, u, node)
+                    return Num(None, (), "bool", cond=c if sym_op == "==" else c.neg())
         if isinstance(a, Num) and isinstance(b, Num) and a.cond is None and b.cond is None:
             shape = self.bshape(a.shape, b.shape, node)
             return Num(None, shape, "bool", cond=Cond.cmp(sym_op, self.as_nf(a, node), self.as_nf(b, node)))
